@@ -97,8 +97,13 @@ Piece(form, tk) ==
     [] tk.t = "nl"    -> "\n"
     [] tk.t = "note"  -> IF Block(form, tk.slot) THEN " /* " \o NoteText(tk.id, tk.slot) \o " */" ELSE " // " \o NoteText(tk.id, tk.slot)
     [] tk.t = "rules" -> IF Block(form, tk.slot) THEN " /* {nullable: true} */" ELSE " // {nullable: true}"
-RECURSIVE Text(_, _, _)
-Text(form, ts, i) == IF i > Len(ts) THEN "" ELSE Piece(form, ts[i]) \o Text(form, ts, i + 1)
+\* user comments at the line ends change nothing: hash 0 none, 1 after every line without an annotation, 2 after every line
+\* (after a note: the note ends where the comment begins); every third one is the empty comment
+Hash(hash, ts, i) == IF hash = 0 \/ ts[i].t # "nl" THEN ""
+                     ELSE IF i > 1 /\ ts[i - 1].t \in {"note", "rules"} /\ hash # 2 THEN ""
+                     ELSE IF i % 3 = 0 THEN " #" ELSE " # c"
+RECURSIVE TextH(_, _, _, _)
+TextH(form, hash, ts, i) == IF i > Len(ts) THEN "" ELSE Hash(hash, ts, i) \o Piece(form, ts[i]) \o TextH(form, hash, ts, i + 1)
 
 \* ---- layer R ----
 Begins(tk) == tk.t \in {"ob", "ab", "lit"}
@@ -148,7 +153,7 @@ RECURSIVE Run(_, _, _, _)
 Run(root, s, ts, i) == IF i > Len(ts) THEN s ELSE Run(root, IStep(root, s, ts[i]), ts, i + 1)
 
 \* ---- exploration ----
-VARIABLES sh, lay, frm
+VARIABLES sh, lay, frm, hsh
 \* the slots a node has by itself (what WellFormed says about one node), so that the layouts are built as a product of small sets
 NodeSlots(root, i) ==
   IF i > Size(root) THEN {NoSlot}
@@ -164,8 +169,9 @@ Init == /\ sh \in DOMAIN Shapes
         /\ WellFormed(Shapes[sh], lay)
         /\ NAnn(Shapes[sh], lay) <= MaxAnn
         /\ frm \in (IF NAnn(Shapes[sh], lay) = 0 THEN {0} ELSE {0, 1, 2})
-Next == UNCHANGED <<sh, lay, frm>>
-Spec == Init /\ [][Next]_<<sh, lay, frm>>
+        /\ hsh \in {0, 1, 2}
+Next == UNCHANGED <<sh, lay, frm, hsh>>
+Spec == Init /\ [][Next]_<<sh, lay, frm, hsh>>
 Root == Shapes[sh]
 Ts == Tokens(Root, lay)
 Final == Run(Root, IInit(Root), Ts, 1)
@@ -174,6 +180,6 @@ Agree ==
   rv = "unspec" \/
   /\ Final.err = rv
   /\ (rv = "ok" => \A id \in 1..Size(Root) : Final.note[id] = RNote(Ts, id) /\ ((id \in Final.rules) <=> RRules(Ts, id)))
-Emit == Export => PrintT("@@CASE " \o ToJson([text |-> Text(frm, Ts, 1), want |-> RVerdict(Root, Ts),
+Emit == Export => PrintT("@@CASE " \o ToJson([text |-> TextH(frm, hsh, Ts, 1), want |-> RVerdict(Root, Ts),
                                                nodes |-> [id \in 1..Size(Root) |-> [note |-> RNote(Ts, id), rules |-> RRules(Ts, id)]]]))
 =================================================================================
